@@ -62,6 +62,13 @@ void vp_outside(u32 tid, u64 idx, u32 worker) {
   in[tid] = 0;
 }
 
+/* slot hint (thread_data::my_arena_index left over from an earlier visit): symbolic unless the scenario fixes it */
+#ifdef HINTS
+static const u16 hints_[3] = { HINTS };
+#define HINT(t) hints_[t]
+#else
+#define HINT(t) ((u16)vp_nd_range(0, NSLOTS + 1))
+#endif
 int main(void) {
   static u8 tc_dummy[64];
   A = vp_arena_make((tc_t*)tc_dummy, NSLOTS, NRES);
@@ -69,14 +76,18 @@ int main(void) {
   VP_ASSERT(NS == (NSLOTS < 2 ? 2 : NSLOTS) && NR == NRES, "arena geometry");
   ALLOT = (unsigned)vp_nd_range(0, NT);
   vp_arena_set_allotment(A, ALLOT);
+#ifdef PREV
+  PRE = PREV;
+#else
   PRE = (unsigned)vp_nd_range(0, (1u << NSLOTS) - 1);
+#endif
   for (unsigned i = 0; i < NS; i++) if ((PRE >> i) & 1) vp_slot_force(A, i, 1);
   unsigned refs0 = vp_arena_refs(A);
-  td_t* td0 = vp_td_make((u16)vp_nd_range(0, NSLOTS + 1), ROLE0, (u32)vp_nd(), (u32)vp_nd());
-  td_t* td1 = vp_td_make((u16)vp_nd_range(0, NSLOTS + 1), ROLE1, (u32)vp_nd(), (u32)vp_nd());
+  td_t* td0 = vp_td_make(HINT(0), ROLE0, (u32)vp_nd(), (u32)vp_nd());
+  td_t* td1 = vp_td_make(HINT(1), ROLE1, (u32)vp_nd(), (u32)vp_nd());
   THR(a_start)(A, td0, 0, ROLE0, NV0); THR(b_start)(A, td1, 1, ROLE1, NV1);
 #if NT > 2
-  td_t* td2 = vp_td_make((u16)vp_nd_range(0, NSLOTS + 1), ROLE2, (u32)vp_nd(), (u32)vp_nd());
+  td_t* td2 = vp_td_make(HINT(2), ROLE2, (u32)vp_nd(), (u32)vp_nd());
   THR(c_start)(A, td2, 2, ROLE2, NV2);
 #endif
   for (int r = 0; r < ROUNDS; r++) {
